@@ -122,6 +122,19 @@ class Deep:
 
     # ---- memory ----------------------------------------------------------------------------------
     def read(self, st, place):
+        v = self._read0(st, place)
+        if v[0] in ("variant", "tuple", "closure", "coroutine", "const", "with"):
+            return v
+        # a symbolic aggregate some of whose fields were overwritten: `with` term
+        ovs = {}
+        for key, val in st.heap.items():
+            if isinstance(key, tuple) and len(key) == 3 and key[0] == "field" and key[1] == place:
+                ovs[key[2]] = val
+        if ovs:
+            return ("with", v, tuple(sorted(ovs.items(), key=lambda kv: str(kv[0]))))
+        return v
+
+    def _read0(self, st, place):
         if place in st.heap:
             return st.heap[place]
         k = place[0]
@@ -150,6 +163,11 @@ class Deep:
             return v[3][idx]
         if v[0] in ("closure", "coroutine") and isinstance(idx, int) and idx < len(v[2]):
             return v[2][idx]
+        if v[0] == "with":
+            for i, val in v[2]:
+                if i == idx:
+                    return val
+            return ("field", v[1], idx)
         return ("field", v, idx)
 
     def write(self, st, place, val):
@@ -163,6 +181,10 @@ class Deep:
             if base[0] == "variant" and isinstance(idx, int) and idx < len(base[3]):
                 nb = ("variant", base[1], base[2], base[3][:idx] + (val,) + base[3][idx + 1:])
                 return self.write(st, place[1], nb)
+            if base[0] == "with" and place[1] in st.heap and st.heap[place[1]][0] == "with":
+                ovs = dict(base[2])
+                ovs[idx] = val
+                return self.write(st, place[1], ("with", base[1], tuple(sorted(ovs.items(), key=lambda kv: str(kv[0])))))
         # drop entries below this place
         for key in [key for key in st.heap if self._prefix(place, key)]:
             del st.heap[key]
@@ -1003,6 +1025,8 @@ def fmt(body, t, depth=0):
         return f"fn[{t[1]}]"
     if k == "conv":
         return f"conv({f(t[1])})"
+    if k == "with":
+        return f"{f(t[1])}{{" + ", ".join(f".{i}={f(v)}" for i, v in t[2]) + "}"
     if k == "len":
         return f"len({f(t[1])})"
     return k
